@@ -50,3 +50,15 @@ func (l *Log) Close() error {
 
 // M is a convenient event type.
 type M map[string]interface{}
+
+// Wrap builds a Log on an already open file.
+func Wrap(f *os.File) *Log {
+	return &Log{f: f, w: bufio.NewWriterSize(f, 1<<16)}
+}
+
+// Flush writes buffered events to the file.
+func (l *Log) Flush() {
+	l.mu.Lock()
+	l.w.Flush()
+	l.mu.Unlock()
+}
